@@ -525,8 +525,18 @@ fn was_modified(files: &[PathAndMetadata], after: DateTime<FixedOffset>, log: &d
         ..
     } in files.iter()
     {
+        // The metadata describe the target of a symbolic link. If the path itself is a symbolic
+        // link, e.g. because the file has been replaced by one, the link must not be newer either.
+        let link_modified = fs::symlink_metadata(p.to_path_buf())
+            .ok()
+            .filter(|lm| lm.file_type().is_symlink())
+            .and_then(|lm| lm.modified().ok());
         match m.modified() {
             Ok(file_timestamp) => {
+                let file_timestamp = match link_modified {
+                    Some(t) if t > file_timestamp => t,
+                    _ => file_timestamp,
+                };
                 let file_timestamp: DateTime<Local> = file_timestamp.into();
                 if file_timestamp > after {
                     log.warn(format!(
